@@ -8,4 +8,7 @@ python3 tools/extract.py
 ( cd lean && for m in Midi/Props/C*.lean; do n=$(basename "$m" .lean); lake build "Midi.Props.$n" || true; done )
 ( cd harness && cargo build --offline --no-default-features --features std --target-dir target/std )
 ( cd harness && cargo build --offline --no-default-features --features "" --target-dir target/nostd )
+( cd harness && cargo build --offline --no-default-features --features with_serde --target-dir target/with_serde )
+( cd harness && cargo build --offline --no-default-features --features std --target-dir target/std-noopt --profile noopt )
+( cd harness && cargo build --offline --no-default-features --features "" --target-dir target/nostd-noopt --profile noopt )
 echo setup-done
